@@ -41,9 +41,9 @@ let () =
             | s -> failwith ("result: " ^ Sexp.to_string s)) (Sexp.field_exn "results" items) in
         let model = run_iter fm0 max_tries incl segs ll start end_ prog in
         let cfg = { c_segs = segs; c_ll = ll; c_start = start; c_end = end_; c_incl = incl; c_tries = max_tries } in
-        let spec = run_spec fm0 cfg prog in
+        let spec = if incl then run_spec_incl_naive fm0 cfg prog else run_spec fm0 cfg prog in
         let live = live_range fm0 cfg in
-        let kinds = (if model <> impl then ["model:iterator"] else []) @ (if spec <> impl && not incl then ["spec:iterator"] else []) in
+        let kinds = (if model <> impl then ["model:iterator"] else []) @ (if spec <> impl then ["spec:iterator"] else []) in
         let has_seek = List.exists (function CSeek _ -> true | _ -> false) prog in
         let nt = if List.length live >= 2 && has_seek then 1 else 0 in
         let show l = String.concat " " (List.map (function
